@@ -77,3 +77,39 @@ Proof. exact ssort_stable_l. Qed.
 Print Assumptions mw_order_permutation.
 Print Assumptions mw_order_ascending.
 Print Assumptions mw_order_stable.
+
+(* Registration with route groups ($server->group(prefix)).  The model keeps one stack per Server
+   (Model.rstep); the spec says per server what it holds (Spec.spec_stack) with no store at all. *)
+Theorem reg_refines_spec : forall h t, (t < nservers h)%nat ->
+  nth_error (stacks (rrun h)) t = Some (spec_stack h t).
+Proof. exact reg_stack_l. Qed.
+Theorem reg_routes_are_spec : forall h, routes (rrun h) = spec_routes h.
+Proof. exact reg_routes_l. Qed.
+Print Assumptions reg_refines_spec.
+Print Assumptions reg_routes_are_spec.
+(* what a Server holds changes only by its OWN middleware() calls: nothing registered on the parent,
+   on a sibling group or on a sub-group afterwards adds, removes or replaces an entry ... *)
+Theorem reg_independent : forall h o t, (t < nservers h)%nat -> (forall p, o <> RMw t p) ->
+  spec_stack (h ++ [o]) t = spec_stack h t.
+Proof. exact reg_independent_l. Qed.
+(* ... its own middleware() appends exactly one entry ... *)
+Theorem reg_own_appends : forall h t p, (t < nservers h)%nat ->
+  exists k, spec_stack (h ++ [RMw t p]) t = (spec_stack h t ++ [{| prio := p; ident := k |}])%list.
+Proof. exact reg_own_l. Qed.
+(* ... and a new group starts with what its parent holds at that moment *)
+Theorem reg_group_inherits : forall h p, (p < nservers h)%nat ->
+  nservers (h ++ [RGroup p]) = S (nservers h) /\
+  spec_stack (h ++ [RGroup p]) (nservers h) = spec_stack h p.
+Proof. exact reg_group_l. Qed.
+(* a route is wrapped by what its Server holds when it is registered, and keeps that chain whatever is
+   registered later; with mw_trace this fixes the order in which its layers run *)
+Theorem reg_route_chain : forall h t, (t < nservers h)%nat ->
+  spec_routes (h ++ [RRoute t]) = (spec_routes h ++ [spec_stack h t])%list.
+Proof. exact reg_route_l. Qed.
+Theorem reg_routes_keep_their_chain : forall h h', exists more, spec_routes (h ++ h') = (spec_routes h ++ more)%list.
+Proof. exact spec_routes_prefix_l. Qed.
+Print Assumptions reg_independent.
+Print Assumptions reg_own_appends.
+Print Assumptions reg_group_inherits.
+Print Assumptions reg_route_chain.
+Print Assumptions reg_routes_keep_their_chain.
